@@ -544,6 +544,23 @@ func C16(c *run.Check) {
 		}
 		vals = append(vals, obj, arr, oa, ao)
 	}
+	// long containers: every member count from 1 to 120 as array and as object
+	for k := 1; k <= 120; k++ {
+		var a, o strings.Builder
+		a.WriteString("[")
+		o.WriteString("{")
+		for i := 0; i < k; i++ {
+			if i > 0 {
+				a.WriteString(",")
+				o.WriteString(",")
+			}
+			fmt.Fprintf(&a, `%d`, i)
+			fmt.Fprintf(&o, `"k%d":[%d]`, i, i)
+		}
+		a.WriteString("]")
+		o.WriteString("}")
+		vals = append(vals, a.String(), o.String())
+	}
 	vals = append(vals, `["[","]"]`, `["{","}"]`, `{"[":"]","{":"}"}`, `[["x","]"],"y"]`, `{"a":"{","b":1}`)
 	vals = append(vals, `{"a":{"b":[{"a":1},[],{}]},"b":[[[]]]}`, `[{"a":[1,{"b":null}]},2]`, `{"a":[],"b":{},"a":[{}]}`, `[[],[[]],[[],[]]]`, `{"":{"":{"":1}}}`, `[1,[2,[3,[4]]]]`, `{"a":"x","a":"y"}`)
 	var texts []string
@@ -637,7 +654,7 @@ func C16(c *run.Check) {
 		c.Sample(texts[i])
 	}
 	c.Set("json_texts", len(texts))
-	c.Rule = fmt.Sprintf("every JSON value with <=%d scalar/empty-container tokens and nesting depth <=%d over keys {a,b,\"\",#obj,duplicate a} and %d scalars (numbers -0, 1.5, 1e21, 1e-7, 20-digit; strings incl. empty/escapes and strings/keys that spell structural tokens such as \"[\" or \"}\"; true/false/null), in 3 whitespace regimes, nesting depth 1-40 in four shapes with members after the nested container at every level, plus 1-3 concatenated top-level values (%d texts): tree compared with a direct recursive mapping; EVERY proper prefix of every text and every single structural-byte deletion/duplication judged by an independent JSON recogniser (error iff not a complete value sequence); reader deviations: one short read / one I/O error at every byte offset; non-trivial = distinct well-formed text with matching tree", budget, depth, ns, len(texts))
+	c.Rule = fmt.Sprintf("every JSON value with <=%d scalar/empty-container tokens and nesting depth <=%d over keys {a,b,\"\",#obj,duplicate a} and %d scalars (numbers -0, 1.5, 1e21, 1e-7, 20-digit; strings incl. empty/escapes and strings/keys that spell structural tokens such as \"[\" or \"}\"; true/false/null), in 3 whitespace regimes, nesting depth 1-40 in four shapes with members after the nested container at every level, arrays and objects of every member count 1-120, plus 1-3 concatenated top-level values (%d texts): tree compared with a direct recursive mapping; EVERY proper prefix of every text and every single structural-byte deletion/duplication judged by an independent JSON recogniser (error iff not a complete value sequence); reader deviations: one short read / one I/O error at every byte offset; non-trivial = distinct well-formed text with matching tree", budget, depth, ns, len(texts))
 	c.Assume("top-level values adjacent without whitespace are not judged; numerals out of double range are outside the universe")
 }
 
